@@ -478,14 +478,22 @@ func (t *timeTicker) Start() <-chan time.Time {
 			}
 			t.ticker = time.NewTicker(t.every)
 			// Send first event since we waited for it explicitly
-			t.alignChan <- next
+			select {
+			case t.alignChan <- next:
+			case <-t.stopping:
+				return
+			}
 			for {
 				select {
 				case <-t.stopping:
 					return
 				case now := <-t.ticker.C:
 					now = now.Round(t.every)
-					t.alignChan <- now
+					select {
+					case t.alignChan <- now:
+					case <-t.stopping:
+						return
+					}
 				}
 			}
 		}()
@@ -545,7 +553,11 @@ func (c *cronTicker) Start() <-chan time.Time {
 			diff := next.Sub(now)
 			select {
 			case <-time.After(diff):
-				c.ticker <- next
+				select {
+				case c.ticker <- next:
+				case <-c.closing:
+					return
+				}
 			case <-c.closing:
 				return
 			}
